@@ -19,6 +19,8 @@ pub struct OP {
     neutral: Regex,
     /// RegexBuilder(P) with a tiny dfa size limit (must not change results)
     tiny_dfa: Option<Regex>,
+    /// RegexBuilder(P).backtrack_limit(L) for small L
+    limited: Vec<(usize, Regex)>,
     vm: bool,
     letters: bool,
 }
@@ -73,6 +75,16 @@ impl PatProp for Options {
         };
         let vm = engine::is_vm(&plain);
         st.class(if vm { "engine:VM" } else { "engine:Wrap" });
+        let mut limited = vec![];
+        for lim in [0usize, 2, 6] {
+            match engine::build_with(pat, |b| {
+                b.backtrack_limit(lim);
+            }) {
+                Built::Ok(r) => limited.push((lim, r)),
+                Built::Err(e) => return Prep::Fail(Fail::new("option-build-error", "backtrack_limit does not affect the build", engine::err_kind(&e))),
+                Built::Panic(p) => return Prep::Fail(Fail::new("compile-panic", "Ok", p)),
+            }
+        }
         // delegate size limit: the build fails iff some delegated piece alone exceeds the limit
         let pieces: Vec<String> = if vm {
             engine::program_shape(pat).map(|(d, _)| d).unwrap_or_default()
@@ -103,9 +115,23 @@ impl PatProp for Options {
                     ));
                 }
                 st.class(if fails { "size-limit:rejects" } else { "size-limit:accepts" });
+                // combining the two size limits (in either order) must not lose one of them
+                for order in [0, 1] {
+                    let both = engine::build_with(pat, |b| {
+                        if order == 0 {
+                            b.delegate_size_limit(lim).delegate_dfa_size_limit(1 << 30);
+                        } else {
+                            b.delegate_dfa_size_limit(1 << 30).delegate_size_limit(lim);
+                        }
+                    });
+                    let both_fails = matches!(both, Built::Err(_));
+                    if both_fails != fails {
+                        return Prep::Fail(Fail::new("size-limit-combined", format!("delegate_size_limit({}) + delegate_dfa_size_limit(1<<30): build fails = {}", lim, fails), format!("build fails = {} (order {})", both_fails, order)));
+                    }
+                }
             }
         }
-        Prep::Ready(OP { plain, opt_ci, flag_ci, neutral, tiny_dfa, vm, letters: letters_of(n) })
+        Prep::Ready(OP { plain, opt_ci, flag_ci, neutral, tiny_dfa, limited, vm, letters: letters_of(n) })
     }
 
     fn eval(&self, _ctx: &RunCtx, p: &OP, _n: &Node, t: &str, pos: usize) -> Verdict {
@@ -131,6 +157,40 @@ impl PatProp for Options {
             if x != y {
                 return Verdict::Fail(Fail::new("case_insensitive-vs-(?i)", format!("(?i)P find_iter: {}", y.show()), format!("case_insensitive(true) find_iter: {}", x.show())));
             }
+        }
+        // backtrack_limit: every entry point either reports the limit error or the unlimited answer,
+        // and entry points that run the same search agree on which of the two
+        let mut limit_hit = false;
+        for (lim, re) in &p.limited {
+            let f = engine::find_from_pos(re, t, pos);
+            let cc = engine::captures_from_pos(re, t, pos);
+            let want_f: Out<crate::refm::Span> = match &c {
+                Out::Val(v) => Out::Val(v.as_ref().map(|v| v[0]).flatten()),
+                Out::Err(e) => Out::Err(e.clone()),
+                Out::Panic(x) => Out::Panic(x.clone()),
+            };
+            let lim_err = Out::Err("BacktrackLimitExceeded".to_string());
+            if f != want_f && f != lim_err {
+                return Verdict::Fail(Fail::new("backtrack_limit-find", format!("Err(BacktrackLimitExceeded) or {}", want_f.show()), format!("limit {}: {}", lim, f.show())));
+            }
+            let cerr: Out<Option<Vec<crate::refm::Span>>> = Out::Err("BacktrackLimitExceeded".to_string());
+            if cc != c && cc != cerr {
+                return Verdict::Fail(Fail::new("backtrack_limit-captures", format!("Err(BacktrackLimitExceeded) or {}", c.show()), format!("limit {}: {}", lim, cc.show())));
+            }
+            if (f == lim_err) != (cc == cerr) {
+                return Verdict::Fail(Fail::new("backtrack_limit-inconsistent", "find_from_pos and captures_from_pos hit the limit together", format!("limit {}: find {} / captures {}", lim, f.show(), cc.show())));
+            }
+            if pos == 0 {
+                let im = engine::guard(|| re.is_match(t));
+                let im_limited = im == Out::Err("BacktrackLimitExceeded".to_string());
+                if im_limited != (f == lim_err) {
+                    return Verdict::Fail(Fail::new("backtrack_limit-inconsistent", "is_match and find hit the limit together", format!("limit {}: is_match {} / find {}", lim, im.show(), f.show())));
+                }
+            }
+            limit_hit |= f == lim_err;
+        }
+        if limit_hit {
+            return Verdict::Pass { nontrivial: p.vm, class: Some("backtrack_limit:hit") };
         }
         // non-trivial: the case-insensitive run matches where the plain one does not (text differs by case)
         let ci_only = matches!(a, Out::Val(Some(_))) && !matches!(c, Out::Val(Some(_)));
@@ -173,12 +233,12 @@ fn cfg() -> gen::Cfg {
 pub fn run(ctx: &RunCtx) -> Outcome {
     let p = Options;
     let mut o = Outcome::default();
-    o.rule = "patterns over mixed-case literals {a,B}, classes, \\w, ., \\b, back-references, groups, atomic groups, four look-arounds, quantifiers and scoped (?i:..) / (?-i:..) groups (exhaustive trees by node count, proptest random ASTs); texts over {a,A,b,B} (<=4). Per (pattern, text, offset): RegexBuilder(P).case_insensitive(true) must equal Regex::new(\"(?i)\"+P) on captures (and find_iter); case_insensitive(false) + huge backtrack / size limits and a 1-byte DFA size limit must equal the plain pattern. Per VM pattern and delegate_size_limit L in {1, 3000, 40000}: the build fails (with InnerError) iff one of the delegated pieces of the program, built alone through regex::RegexBuilder::size_limit(L), fails. Non-trivial = VM-compiled pattern with a letter and a text that matches only case-insensitively. Distinct = distinct (pattern, text, offset).".into();
+    o.rule = "patterns over mixed-case literals {a,B}, classes, \\w, ., \\b, back-references, groups, atomic groups, four look-arounds, quantifiers and scoped (?i:..) / (?-i:..) groups (exhaustive trees by node count, proptest random ASTs); texts over {a,A,b,B} (<=4). Per (pattern, text, offset): RegexBuilder(P).case_insensitive(true) must equal Regex::new(\"(?i)\"+P) on captures (and find_iter); case_insensitive(false) + huge backtrack / size limits and a 1-byte DFA size limit must equal the plain pattern; under backtrack_limit 0 / 2 / 6 find_from_pos, captures_from_pos and is_match each return BacktrackLimitExceeded or the unlimited answer, and agree on which. Per VM pattern and delegate_size_limit L in {1, 3000, 40000}: the build fails (with InnerError; also when combined with a DFA size limit in either order) iff one of the delegated pieces of the program, built alone through regex::RegexBuilder::size_limit(L), fails. Non-trivial = VM-compiled pattern with a letter and a text that matches only case-insensitively. Distinct = distinct (pattern, text, offset).".into();
     o.assumptions = vec![
         "regex::RegexBuilder::size_limit forwards to the same regex-automata NFA size limit that delegate_size_limit is documented to forward to".into(),
         "delegate_dfa_size_limit is only checked for not changing results (the regex crate maps its dfa_size_limit to a different knob)".into(),
     ];
-    o.required_classes = vec!["engine:VM".into(), "engine:Wrap".into(), "match:only-case-insensitively".into(), "size-limit:rejects".into(), "size-limit:accepts".into()];
+    o.required_classes = vec!["backtrack_limit:hit".into(), "engine:VM".into(), "engine:Wrap".into(), "match:only-case-insensitively".into(), "size-limit:rejects".into(), "size-limit:accepts".into()];
     let quick = ctx.quick();
     let n = if quick { 3 } else { 4 };
     let pats = space(&cfg(), n, false);
